@@ -477,3 +477,13 @@ def int_affine(body, op, depth=0):
                 bt, k = int_affine(body, c.args[0], depth + 1)
                 return bt, k - c.args[1].scalar
     return t, 0
+
+
+def point_reaches(body, a, b):
+    """can control flow from item `a` (after it executed) reach item `b`?  (same block: b later than a; or b's block reachable from a successor of a's block)"""
+    if a.bb == b.bb and b.idx > a.idx:
+        return True
+    for nxt in body.succ(a.bb):
+        if b.bb in body.reachable(nxt):
+            return True
+    return False
